@@ -22,7 +22,8 @@ the per-query correspondence):
   (`ψU tb` is the Chen weight `C03Model.φU`, whose sum over the pieces is the returned `U`, `C03Model.answerSpec_U`);
 * `queries_uncorrelated`: two resolved queries `[ta,tb]`, `[tc,td]` with `tb ≤ tc` of one tree have uncorrelated `W` and `U` (any linear
   functionals of their pieces) - independent increments at the level of what the object returns; with C03 (additivity for every
-  history) this fixes the covariance of ANY two increments at resolved times to the length of the overlap;
+  history) this fixes the covariance of ANY two increments at resolved times to the length of the overlap: `overlap_cov`
+  (`Cov(W(s,t'), W(u,v)) = t' - u` for `s < u < t' < v`), the defining covariance structure of Brownian motion;
 * `C04ModelEx`: every hypothesis is met over ℝ (real square root, coefficient vectors with the dot product, one-hot noise).
 
 That Gaussian vectors are determined by these second moments is classical and trusted (DESIGN §5).
@@ -849,6 +850,61 @@ theorem queries_uncorrelated (hsq : ∀ x : K, 0 ≤ x → sqrt x * sqrt x = x) 
     intro p2 hp2 v2 n2 hv2 hg2
     obtain ⟨_, _, k3, k4⟩ := key p2 hp2 v2 n2 hv2 hg2
     exact ⟨(C.symm _ _).trans k3, (C.symm _ _).trans k4⟩
+
+/-! ### the covariance of two overlapping increments is the length of the overlap -/
+
+/-- the vector-valued split is additive in `W` (the regenerated kernels are: `C03.split_add_H` at the four unit vectors) -/
+theorem vecOps_splitAdditive : C03Model.SplitAdditive (vecOps sqrt nz) (φV (K := K) (R := R)) := by
+  intro s m e par x1 x2 hsm hme
+  have h : e - s ≠ 0 := ne_of_gt (sub_pos.mpr (lt_trans hsm hme))
+  have a1 := C03.split_add_H sqrt s m e 1 0 0 0 h
+  have a2 := C03.split_add_H sqrt s m e 0 1 0 0 h
+  have a3 := C03.split_add_H sqrt s m e 0 0 1 0 h
+  have a4 := C03.split_add_H sqrt s m e 0 0 0 1 h
+  simp only [vecOps, if_true, Bool.false_eq_true, if_false, lin, coefs, φV]
+  refine Eq.trans (b := (Gen.split_HL_W sqrt s m e 1 0 0 0 + Gen.split_HR_W sqrt s m e 1 0 0 0) • par.1
+          + (Gen.split_HL_W sqrt s m e 0 1 0 0 + Gen.split_HR_W sqrt s m e 0 1 0 0) • par.2
+          + (Gen.split_HL_W sqrt s m e 0 0 1 0 + Gen.split_HR_W sqrt s m e 0 0 1 0) • x1
+          + (Gen.split_HL_W sqrt s m e 0 0 0 1 + Gen.split_HR_W sqrt s m e 0 0 0 1) • x2) ?_ ?_
+  · simp only [add_smul]; abel
+  · rw [a1, a2, a3, a4]; simp
+
+/-- **C04 + C03: the covariance structure of Brownian increments.**  For resolved times `s < u < t' < v` of one tree (all five
+intervals resolved): `Cov(W(s,t'), W(u,v)) = t' - u`, the length of the overlap.  (Additivity of the sums: `C03Model.find_additive`;
+variance: `query_var`; independence of the disjoint parts: `queries_uncorrelated`.) -/
+theorem overlap_cov (hsq : ∀ x : K, 0 ≤ x → sqrt x * sqrt x = x) (hn : NoiseON C nz) {t : Model.BM.Tree K} (hwf : WF c t)
+    {top : R × R} (hl : LawAt C top t.s t.e) (hf : Fresh C nz top []) {s u t' v : K} (hsu : s < u) (hut : u < t') (htv : t' < v)
+    {p1 p2 pa pb pc : List Path} (f1 : find t s t' = some p1) (f2 : find t u v = some p2)
+    (fa : find t s u = some pa) (fb : find t u t' = some pb) (fc : find t t' v = some pc) :
+    ∃ X1 X2, C03Model.sumW (vecOps sqrt nz) (φV (K := K)) top t [] p1 = some X1 ∧
+      C03Model.sumW (vecOps sqrt nz) (φV (K := K)) top t [] p2 = some X2 ∧ C.ip X1 X2 = t' - u := by
+  obtain ⟨xa, xb, ha, hb, h1⟩ := C03Model.find_additive (c := c) (vecOps_splitAdditive sqrt nz) t top [] s u t' hwf hsu hut f1 fa fb
+  obtain ⟨xb', xc, hb', hc, h2⟩ := C03Model.find_additive (c := c) (vecOps_splitAdditive sqrt nz) t top [] u t' v hwf hut htv f2 fb fc
+  have eb : xb' = xb := Option.some.inj (hb'.symm.trans hb)
+  subst eb
+  refine ⟨_, _, h1, h2, ?_⟩
+  obtain ⟨xb2, hb2, vb⟩ := query_var sqrt C nz hsq hn t top [] u t' hwf hl hf fb
+  have eb2 : xb2 = xb' := Option.some.inj (hb2.symm.trans hb)
+  subst eb2
+  -- sums of `φV` are sums of `ψW.app`
+  have conv : ∀ (ps : List Path) {X : R}, C03Model.sumW (vecOps sqrt nz) (φV (K := K)) top t [] ps = some X →
+      C03Model.sumW (vecOps sqrt nz) ((ψW (K := K)).app (R := R)) top t [] ps = some X := by
+    intro ps
+    induction ps with
+    | nil => intro X h; simpa [C03Model.sumW] using h
+    | cons p ps ih =>
+      intro X h
+      simp only [C03Model.sumW] at h ⊢
+      split at h
+      · rename_i v nd sx hv hg hs
+        rw [hv, hg, ih hs]
+        simp only [Option.some.injEq] at h ⊢
+        rw [← h]; simp [LinF.app, ψW]
+      · simp at h
+  have oab := queries_uncorrelated sqrt C nz hsq hn hwf hl hf ψW ψW (le_refl u) fa fb (conv _ ha) (conv _ hb)
+  have oac := queries_uncorrelated sqrt C nz hsq hn hwf hl hf ψW ψW (le_of_lt hut) fa fc (conv _ ha) (conv _ hc)
+  have obc := queries_uncorrelated sqrt C nz hsq hn hwf hl hf ψW ψW (le_refl t') fb fc (conv _ hb) (conv _ hc)
+  rw [C.add_left, C.add_right, C.add_right, oab, oac, vb, obc]; ring
 
 /-- the root of a freshly constructed object: `W = sqrt(T)·ξ₀`, `H = sqrt(T/12)·ξ₁` with `ξ₀, ξ₁` standard, uncorrelated with each
 other and with all node noise -/
